@@ -22,6 +22,7 @@ EXPLANATION = (
     'category parameters are shape-guarded (the placeholder category is a plain NP).  Value-dependent failures (e.g. '
     'XML-illegal characters) and the ccg2lambda pipeline (needs nltk) are not decided.'
     ' Failure is reported exactly when no tree was found (no empty result list reaches a printer); no default argument of the printers evaluates the language at import time.'
+    ' Third round: elements taken off token work lists (tokens.pop(0), next(tokens)) are tokens for the placeholder-safe-access rule.'
 )
 TRUSTED = ['CPython ast', 'sa/pysym.py path walker', 'label extraction shared with C03/C04']
 
@@ -201,13 +202,36 @@ def r_dispatch(repo, rep, R='R19.2'):
     return choices
 
 
+def tokens_like(t):
+    """a sequence of the tree's tokens (possibly wrapped: list(enumerate(tree.tokens)), a work list named tokens)"""
+    if t[0] == 'attr' and t[2] == 'tokens':
+        return True
+    if t[0] == 'name' and 'tokens' in t[1]:
+        return True
+    if t[0] == 'call' and t[1][0] == 'name' and t[1][1] in ('zip', 'enumerate', 'list', 'iter', 'reversed', 'sorted', 'tuple', 'deque'):
+        return any(tokens_like(a) for a in t[2])
+    if t[0] == 'mutated':
+        return tokens_like(t[1])
+    return False
+
+
 def token_like(t):
     if t[0] == 'attr' and t[2] == 'token':
         return True
     if t[0] in ('elem', 'unpack'):
-        return token_like(t[1]) or (t[1][0] == 'attr' and t[1][2] == 'tokens') or \
-            (t[1][0] == 'call' and any(token_like(a) or (a[0] == 'attr' and a[2] == 'tokens') for a in t[1][2]) and
-             t[1][1][0] == 'name' and t[1][1][1] in ('zip', 'enumerate', 'list', 'iter', 'reversed', 'sorted'))
+        inner = t[1]
+        if token_like(inner) or tokens_like(inner):
+            return True
+        # an element taken off a token work list: tokens.pop(0), next(tokens)
+        if inner[0] == 'call' and inner[1][0] == 'attr' and inner[1][2] in ('pop', 'popleft') and tokens_like(inner[1][1]):
+            return True
+        if inner[0] == 'call' and inner[1] == ('name', 'next') and inner[2] and tokens_like(inner[2][0]):
+            return True
+        return False
+    if t[0] == 'call' and t[1][0] == 'attr' and t[1][2] in ('pop', 'popleft') and tokens_like(t[1][1]):
+        return True
+    if t[0] == 'sub' and tokens_like(t[1]) and not (t[2][0] == 'const' and isinstance(t[2][1], str)):
+        return True
     return False
 
 
